@@ -609,4 +609,29 @@ theorem release_under_current_generation_leaks :
 concrete inputs; `model_constants_match_source` and `marker_follows_only_spec_fields` are `decide` over the tables
 regenerated from the source on every run. -/
 
+/-- **root_token_drop_always_frees** (table obligation): every `fn drop` of `impl Drop for RootToken` in the
+source is one unconditional call of `Roots::free` on the root table — no `try_lock`, no early return, no
+condition — which is what `RootOp.free` of the model (and hence `root_token_release`) assumes. -/
+def rootDropSpec : List String :=
+  ["ROOTS.with(|x|x.borrow_mut().free(self))", "GLOBAL_ROOTS.lock().unwrap().free(self)"]
+
+theorem root_token_drop_always_frees :
+    Gen.rootTokenDrop.length = 2 ∧ ∀ b ∈ Gen.rootTokenDrop, rootDropSpec.contains b := by decide
+
+/-- The hypothesis is needed: a `drop` that skips the `free` when another thread holds the table (a `try_lock`
+that fails once) leaves the value a host root of every later collection, although its token is gone. -/
+theorem release_skipped_when_busy_leaks :
+    let t : RootTable Nat := {}
+    let r := t.root 7
+    ((r.1.freeUnlessBusy true r.2).collect).hostRoots = [7] ∧ ((r.1.freeUnlessBusy false r.2).collect).hostRoots = [] := by
+  decide
+
+/-- **recycler_root_walk_skips_candidates** (table obligation, liveness of global slots): the first walk of
+`GlobalSlotRecycler::recycle` starts from the globals that are NOT candidates (shadowed slots), so the value
+stored in a shadowed slot — e.g. the closure of a recursive function, whose code mentions its own slot — cannot
+keep its own slot alive; candidates that an instruction of LIVE code mentions are then walked to a fixed point. -/
+theorem recycler_root_walk_skips_candidates :
+    ∀ f ∈ ["root walk skips candidate slots", "candidates = drained shadowed slots",
+           "live candidates are walked until no further slot becomes live"], Gen.recyclerFacts.contains f := by decide
+
 end SteelVerif.C19
